@@ -22,6 +22,8 @@ type Gated struct {
 	*Mail
 	RemoteMsgs []imap.MessageID // message IDs the remote knows, in creation order
 	BoxRemote  map[string]imap.MailboxID
+	everIn map[imap.MailboxID]map[imap.MessageID]bool // message was in the mailbox at some time
+	nowIn  map[imap.MailboxID]map[imap.MessageID]bool
 	// OnCmd is called after every client command with the mirror as it stood before.
 	OnCmd func(si int, kind string, before []wire.Entry, r *wire.Result)
 }
@@ -40,9 +42,29 @@ func (g *Gated) refreshRemote() {
 			continue
 		}
 		switch call.Kind {
+		case simconn.KAddLabel:
+			for _, id := range call.Msgs {
+				g.noteIn(call.Mailbox, id)
+			}
+		case simconn.KRemoveLabel:
+			for _, id := range call.Msgs {
+				g.noteOut(call.Mailbox, id)
+			}
+		case simconn.KMove:
+			for _, id := range call.Msgs {
+				if call.Bool {
+					g.noteOut(call.Mailbox, id)
+				}
+				g.noteIn(call.To, id)
+			}
+		}
+		switch call.Kind {
 		case simconn.KCreateMessage:
 			if call.NewID != "" && !call.Bool {
 				g.RemoteMsgs = append(g.RemoteMsgs, imap.MessageID(call.NewID))
+			}
+			if call.NewID != "" {
+				g.noteIn(call.Mailbox, imap.MessageID(call.NewID))
 			}
 		case simconn.KCreateMailbox:
 			g.BoxRemote[strings.Join(call.Name, g.E.W.Cfg.Delimiter)] = imap.MailboxID(call.NewID)
@@ -53,6 +75,29 @@ func (g *Gated) refreshRemote() {
 		if _, ok := g.BoxRemote[n]; !ok {
 			g.BoxRemote[n] = id
 		}
+	}
+}
+
+// noteIn / noteOut track mailbox membership as the remote sees it; a message entering a
+// mailbox it has been in before is the history behind finding F07b.
+func (g *Gated) noteIn(box imap.MailboxID, id imap.MessageID) {
+	if g.everIn == nil {
+		g.everIn, g.nowIn = map[imap.MailboxID]map[imap.MessageID]bool{}, map[imap.MailboxID]map[imap.MessageID]bool{}
+	}
+	if g.everIn[box] == nil {
+		g.everIn[box], g.nowIn[box] = map[imap.MessageID]bool{}, map[imap.MessageID]bool{}
+	}
+	if g.everIn[box][id] {
+		g.E.Attr("message_put_back")
+		g.E.St.Probes["message_put_back"]++
+	}
+	g.everIn[box][id] = true
+	g.nowIn[box][id] = true
+}
+
+func (g *Gated) noteOut(box imap.MailboxID, id imap.MessageID) {
+	if g.nowIn != nil && g.nowIn[box] != nil {
+		delete(g.nowIn[box], id)
 	}
 }
 
@@ -162,6 +207,7 @@ func (g *Gated) ExecG(a core.Action) bool {
 		e.Tr.Event("conn.new", box, msg.Marker, r.Done, r.Err != nil)
 		if r.Done && r.Err == nil {
 			g.RemoteMsgs = append(g.RemoteMsgs, id)
+			g.noteIn(rid, id)
 		}
 		g.afterConn(r, "MessagesCreated")
 		return true
@@ -194,6 +240,21 @@ func (g *Gated) ExecG(a core.Action) bool {
 		flags := imap.NewFlagSet(FlagsFromMask(a.Arg(2)&0x6f, 0)...)
 		r := e.W.Submit(e.W.Users[0], imap.NewMessageMailboxesUpdated(id, boxes, flags))
 		e.Tr.Event("conn.boxes", id, boxes, r.Done, r.Err != nil)
+		if r.Done && r.Err == nil {
+			want := map[imap.MailboxID]bool{}
+			for _, b := range boxes {
+				want[b] = true
+			}
+			for _, rid := range g.BoxRemote {
+				if want[rid] {
+					if g.nowIn == nil || g.nowIn[rid] == nil || !g.nowIn[rid][id] {
+						g.noteIn(rid, id)
+					}
+				} else {
+					g.noteOut(rid, id)
+				}
+			}
+		}
 		g.afterConn(r, "MessageMailboxesUpdated")
 		return true
 	case "conn.del":
